@@ -176,6 +176,53 @@ theorem fragment_only_selects_service (op : Op) (h : op.offset ≠ none) :
   | none => exact absurd ho h
   | some o => cases o <;> rfl
 
+/-! ## the same operation list, issued again -/
+
+/-- `issue` works on `op.copy()`: the caller's operation dicts are as before -/
+theorem issue_leaves_caller_list (fragment : Bool) (ops : List RawOp) :
+    callerAfter true fragment ops = ops := rfl
+
+/-- **Every pass over the same list object acts on the same operations**, whatever settings the
+list was issued under before: the k-th pass sees `ops` resolved for its own `fragment` only. -/
+theorem passes_see_same_operations (ops : List RawOp) (ps : List Pass) :
+    passOps true ops ps = ps.map fun p => ops.map (RawOp.toOp p.fragment) := by
+  induction ps generalizing ops with
+  | nil => rfl
+  | cons p ps ih => simp only [passOps, List.map_cons, issue_leaves_caller_list, ih]
+
+/-- **Re-issuing gives the same results**: for any history of earlier passes `before`, a pass with
+setting `p` (any entry depth, bundle limit, estimates, keys, device) over the same list yields one
+result per operation with the bodies of the one-by-one execution of `ops` - exactly what a first pass
+yields. -/
+theorem reissue_results_invariant (step : σ → Op → σ × ρ) (depth : Nat) (est : Op → Nat × Nat)
+    (key : Op → κ) (multiple rmin pmin index : Nat) (s0 : σ) (ops : List RawOp)
+    (before : List Pass) (p : Pass) (h : index + ops.length ≤ 10 ^ 8) :
+    ∃ seen, (passOps true ops (before ++ [p])).getLast? = some seen
+      ∧ seen = ops.map (RawOp.toOp p.fragment)
+      ∧ (operate step depth index s0 (issue est key multiple rmin pmin index seen)).2 = Outcome.ok
+      ∧ (operate step depth index s0 (issue est key multiple rmin pmin index seen)).1.map Prod.snd
+          = sequential step s0 (ops.map (RawOp.toOp p.fragment)) := by
+  refine ⟨ops.map (RawOp.toOp p.fragment), ?_, rfl, ?_, ?_⟩
+  · rw [passes_see_same_operations]; simp
+  · exact (results_invariant step depth est key multiple rmin pmin index s0 _ (by simpa using h)).1
+  · exact (results_invariant step depth est key multiple rmin pmin index s0 _ (by simpa using h)).2.1
+
+/-- Without the copy (`callerAfter false`) the second pass finds 'method' popped: a Get Attribute
+Single operation is issued as a Read Tag [Fragmented], a Set Attribute Single as a Write Tag
+[Fragmented], and the pinned
+'offset' of the first pass overrides the second pass's `fragment`. -/
+theorem aliasing_changes_second_pass :
+    let gas : RawOp := { method := some Method.gas }
+    let sas : RawOp := { method := some Method.sas, hasData := true, ndata := 4 }
+    let rd : RawOp := {}
+    let p1 : Pass := { via := 0, depth := 0, multiple := 0, fragment := false }
+    let p2 : Pass := { via := 1, depth := 2, multiple := 0, fragment := true }
+    (passOps false [gas, sas, rd] [p1, p2]).map (fun l => l.map fun o => reqKind false o)
+        = [[ReqKind.gas, ReqKind.sas, ReqKind.readTag], [ReqKind.readFrag, ReqKind.writeFrag, ReqKind.readTag]]
+    ∧ (passOps true [gas, sas, rd] [p1, p2]).map (fun l => l.map fun o => reqKind false o)
+        = [[ReqKind.gas, ReqKind.sas, ReqKind.readTag], [ReqKind.gas, ReqKind.sas, ReqKind.readFrag]] := by
+  decide
+
 /-! ## grammar: a formatted path parses back to the same segments -/
 
 /-- the path shapes `format_path` documents -/
